@@ -15,14 +15,22 @@ St(r) == [feats |-> AsSet(r.feats), label |-> r.label, uuid |-> r.uuid, blocks |
           extopts |-> r.extopts, journal |-> r.journal, quota |-> AsSet(r.quota), seed |-> r.seed, resuid |-> r.resuid, resgid |-> r.resgid,
           stride |-> r.stride, stripe |-> r.stripe, hashalg |-> r.hashalg, testfs |-> r.testfs, valid |-> r.valid, errfs |-> r.errfs,
           lastmnt |-> r.lastmnt, mmp |-> r.mmp, mmpint |-> r.mmpint, orphino |-> r.orphino, csumtype |-> r.csumtype,
-          lastcheck |-> r.lastcheck, mtime |-> r.mtime, jdev |-> r.jdev, packed |-> r.packed]
+          lastcheck |-> r.lastcheck, mtime |-> r.mtime, jdev |-> r.jdev, packed |-> r.packed, jmode |-> r.jmode,
+          qinum |-> [usr |-> r.qinum.usr, grp |-> r.qinum.grp, prj |-> r.qinum.prj], firstino |-> r.firstino, lowfree |-> r.lowfree]
 (* the starting images contain every element of the boundary catalogue (census by the independent reader) *)
 ASSUME \A i \in 1..Len(Profiles) : UniverseOK(St(Profiles[i].state), Profiles[i].content)
-MCOps == StructuralOps \cup {K("E", "force_fsck", 0), K("L", "newlabel", 0), K("T", "20200101000000", 1577836800), K("m", "", 1)}
+(* every transition of every multi-valued field is taken by the singles and Tune!FieldPairs from every starting state *)
+ASSUME \A i \in 1..Len(Profiles) : FieldTransitionsTaken(St(Profiles[i].state))
+(* both values of the catalogue element FirstInoFree occur *)
+ASSUME {Profiles[i].content.variant : i \in 1..Len(Profiles)} = CatVariants
+MCOps == StructuralOps \cup {K("E", "force_fsck", 0), K("L", "newlabel", 0), K("T", "20200101000000", 1577836800), K("m", "", 1),
+                                S("o", <<"journal_data">>, <<>>), S("o", <<"journal_data_ordered">>, <<>>), S("o", <<>>, <<"journal_data_writeback">>)}
 
 Fsck(s, op) == {[s EXCEPT !.valid = 1, !.errfs = 0, !.mntcount = 0, !.lastcheck = FakeNow, !.feats = @ \cup x,
                          !.uuid = IF FsckAddsUuid(s) THEN "random" ELSE @] : x \in SUBSET FsckMayRestore(op)}
-Init == /\ st \in {St(Profiles[i].state) : i \in 1..Len(Profiles)}
+(* the model does not track inode allocation (lowfree stays what the image says): the variants of a profile that differ only
+   in it behave alike; the exploration starts from the plain variant, the ASSUMEs above range over every image *)
+Init == /\ st \in {St(Profiles[i].state) : i \in {j \in 1..Len(Profiles) : Profiles[j].content.variant = ""}}
         /\ n = 0 /\ stale = {} /\ hist = <<>>
 Next == /\ n < MaxLen
         /\ \E op \in MCOps :
